@@ -438,7 +438,8 @@ theorem toM4_upper3 {K : Type} [CommRing K] (q : Quat K) :
   ext <;> simp [Cg.C09.upper3, Quat.toM4, Quat.toM3, M4.new, M3.new, V4.truncate]
 
 /-- for a unit quaternion the upper-left 3x3 block of `Matrix4::from(q)` is orthonormal with
-determinant `+1` (and the matrix is affine with zero translation) -/
+determinant `+1`, and the last column is `(0,0,0,1)` (despite the name this is about the 3x3 block only; the 4x4 statement
+`q.toM4ᵀ * q.toM4 = 1`, `det = 1` is `toM4_orthonormal_full`, `Props/C05c.lean`) -/
 theorem toM4_orthonormal {K : Type} [CommRing K] (q : Quat K) (hq : q.magnitude2 = 1) :
     (Cg.C09.upper3 q.toM4).transpose * Cg.C09.upper3 q.toM4 = M3.one ∧
     Cg.C09.upper3 q.toM4 * (Cg.C09.upper3 q.toM4).transpose = M3.one ∧
